@@ -38,3 +38,27 @@ def simulate(ctx, main, *, max_steps=400_000, max_time=None, epoch=1_700_000_000
 
 
 TICK = 1.0 / 1024
+
+
+def raised_in_repo(exc):
+    """True iff the innermost frame of exc's traceback is repository code (not harness, not stdlib)."""
+    tb = exc.__traceback__
+    last = None
+    while tb is not None:
+        last = tb
+        tb = tb.tb_next
+    if last is None:
+        return False
+    fn = last.tb_frame.f_code.co_filename
+    return fn.startswith(shim.REPO.rstrip('/') + '/')
+
+
+def passes_through_repo(exc):
+    """True iff some frame of exc's traceback is repository code."""
+    tb = exc.__traceback__
+    root = shim.REPO.rstrip('/') + '/'
+    while tb is not None:
+        if tb.tb_frame.f_code.co_filename.startswith(root):
+            return True
+        tb = tb.tb_next
+    return False
